@@ -153,6 +153,33 @@ func (lc *lockCtx) heldAt(fn *ssa.Function, at ssa.Instruction, mu string, depth
 				deferred = true
 			}
 		})
+		if !deferred {
+			// explicit unlocks (`mu.Lock(); …; mu.Unlock()`): the access lies in the locked region when no
+			// unlock of this mutex can be followed by the access without the lock being taken again
+			released := false
+			nUnlock := 0
+			an.Instrs(fn, func(in2 ssa.Instruction) {
+				u, ok := in2.(*ssa.Call)
+				if !ok || an.CalleeName(&u.Call) != unlock || an.PathOf(u.Call.Args[0]) != mu {
+					return
+				}
+				nUnlock++
+				reachesAccess := false
+				forwardScan(u, func(x ssa.Instruction) bool {
+					if x == at {
+						reachesAccess = true
+						return true
+					}
+					return x == in // the lock is taken again first
+				})
+				if reachesAccess {
+					released = true
+				}
+			})
+			if nUnlock > 0 && !released {
+				deferred = true
+			}
+		}
 		if deferred && mode > best {
 			best = mode
 		}
